@@ -36,6 +36,7 @@ import (
 	clienttx "github.com/cosmos/cosmos-sdk/client/tx"
 	"github.com/cosmos/cosmos-sdk/crypto/keys/secp256k1"
 	sdk "github.com/cosmos/cosmos-sdk/types"
+	sdkquery "github.com/cosmos/cosmos-sdk/types/query"
 	"github.com/cosmos/cosmos-sdk/types/tx/signing"
 	authsigning "github.com/cosmos/cosmos-sdk/x/auth/signing"
 	sdkerrors "github.com/cosmos/cosmos-sdk/types/errors"
@@ -777,7 +778,9 @@ func (e *lockEnv) exec(op string) string {
 	case "spendable":
 		ad := e.addr[ws[1]]
 		return Guard(func() string {
-			resp, err := a.BankKeeper.SpendableBalances(e.ctx, &banktypes.QuerySpendableBalancesRequest{Address: ad.String()})
+			// the answer is paginated (100 entries by default): ask for ONE page that has room for all of it
+			resp, err := a.BankKeeper.SpendableBalances(e.ctx, &banktypes.QuerySpendableBalancesRequest{Address: ad.String(),
+				Pagination: &sdkquery.PageRequest{Limit: 100000}})
 			if err != nil {
 				return "err:query"
 			}
@@ -1337,6 +1340,64 @@ func lockHistory(e *lockEnv, rng *RNG, out *Out, h int) {
 		}
 		return strings.Join(ps, ",")
 	}
+	// ---- the NUMBER OF DENOMS an account has on hold: in a "wide" history one account owns, and has
+	// on hold, funds of about a hundred or more FURTHER denoms (a seller of many NFTs, each its own
+	// denom; a large multi-denom commitment), so that the per-account listing the bank's locked-coins
+	// getter reads has that many entries.  Their names sort before, between or after the usual three
+	// denoms; the routes of the history then debit some of them (the first, the last, the ones
+	// around the hundredth entry, random ones) next to the usual denoms.
+	wideHist := rng.Chance(5)
+	if wideHist {
+		out.Count("history:wide")
+		n := Pick(rng, []int{99, 100, 101, 101, 102, 105, 110, 120, 128, 150})
+		out.Count(fmt.Sprintf("wide:n=%d", n))
+		pfx := Pick(rng, []string{"aa", "asset", "nft/", "scope.", "sz", "zz"})
+		w := Pick(rng, holders)
+		out.Count("wide:acct:" + w)
+		var wide []string
+		var fundCs, holdCs sdk.Coins
+		for i := 0; i < n; i++ {
+			d := fmt.Sprintf("%s%03d", pfx, i)
+			wide = append(wide, d)
+			b := int64(1 + rng.Intn(4))
+			h := b
+			if rng.Chance(30) {
+				h = 1 + int64(rng.Intn(int(b)))
+			}
+			fundCs = append(fundCs, sdk.NewInt64Coin(d, b))
+			holdCs = append(holdCs, sdk.NewInt64Coin(d, h))
+		}
+		g.emit("fund " + w + " " + lockCoinsStr(sdk.NewCoins(fundCs...)))
+		g.emit("dump")
+		for _, d := range denoms { // some of the usual denoms go on hold with them
+			sp := e.app.BankKeeper.SpendableCoins(e.ctx, e.addr[w]).AmountOf(d)
+			if sp.IsPositive() && rng.Chance(50) {
+				holdCs = append(holdCs, sdk.NewCoin(d, sdkmath.NewInt(1+int64(rng.U64()%uint64(minI64(sp.Int64(), 1<<40))))))
+			}
+		}
+		g.emit("hold " + w + " " + lockCoinsStr(sdk.NewCoins(holdCs...)))
+		g.emit("dump")
+		g.emit("spendable " + w)
+		g.emit(fmt.Sprintf("kspend %s vb=0 hb=0", w))
+		g.emit("inv")
+		picks := []string{wide[0], wide[n-1], wide[rng.Intn(n)], wide[rng.Intn(n)]}
+		if n > 100 {
+			picks = append(picks, wide[99], wide[100])
+		}
+		if lockIsUser(w) || w == "S" {
+			for i := 0; i < 3; i++ {
+				d := Pick(rng, picks)
+				to := "B"
+				if w == "B" {
+					to = "A"
+				}
+				g.emit(fmt.Sprintf("send %s %s %s", w, to, coinOf(w, d)))
+				g.emit("dump")
+			}
+		}
+		plain = append(plain, picks...)
+		denoms = append(denoms, picks...)
+	}
 	now := t0
 	var qsenders []string
 	noteQ := func(op, res, f string) {
@@ -1808,6 +1869,9 @@ func lockHistory(e *lockEnv, rng *RNG, out *Out, h int) {
 		}
 	}
 	steps := 11 + rng.Intn(15)
+	if wideHist { // every dump of such a history is long
+		steps = 5 + rng.Intn(7)
+	}
 	for s := 0; s < steps; s++ {
 		switch k := rng.Intn(141); {
 		case k >= 127:
